@@ -310,6 +310,8 @@ pub enum Event {
         prev_wal_number: Option<u64>,
         manifest_number: u64,
         listed: Vec<(&'static str, String)>,
+        /// what `list_dir` returned for the three folders, before anything was skipped
+        listing: Vec<(&'static str, String)>,
         deleted: Vec<String>,
     },
     ManualRound {
